@@ -20,7 +20,9 @@ def run():
         # the device built with its certification-protocol handler (non-default cargo feature), under CertTrace.tla
         extra=[macfam.certification(PID)],
         # design level: under weak fairness of the procedure's own steps every receive procedure returns to the caller
-        mc=[("MCFront.tla", "MCFrontLive.cfg", {"workers": 4})])
+        mc=[("MCFront.tla", "MCFrontLive.cfg", {"workers": 4}),
+            # ... and so does every receive procedure of the nb state machine, whatever else happens in between
+            ("MCNb.tla", "MCNbLive.cfg", {"workers": 4})])
 
 def replay(path):
     return macfam.replay(PID, path)
